@@ -14,16 +14,43 @@ pub enum Mode {
     Preservation,
 }
 
+/// one subject program: from the core universe (printed on demand) or from the System-F / F-omega universe
+pub enum Item {
+    Core(Prog),
+    Poly(crate::poly::Cmp),
+}
+impl Item {
+    fn text(&self) -> String {
+        match self {
+            | Item::Core(p) => crate::print::program(&p.body, &p.root, &Cfg::default()).0,
+            | Item::Poly(c) => crate::poly::program(c, false),
+        }
+    }
+    fn stdin(&self) -> &'static [u8] {
+        match self {
+            | Item::Core(p) => p.stdin,
+            | Item::Poly(_) => b"",
+        }
+    }
+    fn origin(&self) -> String {
+        match self {
+            | Item::Core(p) => p.origin.to_string(),
+            | Item::Poly(_) => "polymorphism".into(),
+        }
+    }
+}
+
 pub struct Lowered {
     mode: Mode,
-    progs: Vec<Prog>,
+    progs: Vec<Item>,
     chunk: usize,
     scratch: Option<Scratch>,
 }
 
 impl Lowered {
     pub fn new(mode: Mode, tier: Tier) -> Self {
-        let progs: Vec<Prog> = universe(tier);
+        let mut progs: Vec<Item> = universe(tier).into_iter().map(Item::Core).collect();
+        progs.extend(crate::poly::universe(tier).into_iter().map(Item::Poly));
         Lowered { mode, progs, chunk: 16, scratch: None }
     }
 }
@@ -255,12 +282,12 @@ impl Check for Lowered {
     }
     fn describe(&self, i: usize) -> String {
         let p = &self.progs[i * self.chunk];
-        format!("programs #{}..#{} of the universe; first ({}), stdin {:?}:\n{}", i * self.chunk, (i + 1) * self.chunk, p.origin, String::from_utf8_lossy(p.stdin), crate::print::program(&p.body, &p.root, &Cfg::default()).0)
+        format!("programs #{}..#{} of the universe; first ({}), stdin {:?}:\n{}", i * self.chunk, (i + 1) * self.chunk, p.origin(), String::from_utf8_lossy(p.stdin()), p.text())
     }
     fn rule(&self) -> String {
         match self.mode {
-            | Mode::Lowering => format!("every accepted program of the universe ({} programs; Ret-rooted through RootLowerer, executable-rooted through BuiltinRootLowerer): stack-IR lowering, closure conversion, assembly lowering, render_sps_low, render_assembly, emit_amd64 (ELF + Mach-O), emit_llvm (4 triples) each under catch_unwind; independent re-validation in the harness: SPSLow root closed, every block's free variables within its own label, labels unique, stack lets only around coproduct matches, comatch tags unique, product layouts positive with items <= arity and one class per field, every extern in the builtin table with the role's arity; emitted AMD64 text defines no label twice; non-trivial = programs that lowered and contain >= 1 closure package and >= 1 continuation package", self.progs.len()),
-            | Mode::Preservation => format!("every accepted program of the universe that lowers ({} candidate programs) is run on the harness's SPSLow reference machine (layout-aware flat products, blocks closed over their own label, host operations = the repository's implementations) and on zydeco_dynamics::Runtime with the same stdin; output bytes and final result must agree; a stuck SPSLow state (unbound variable in a block, tag not found, layout/arity mismatch, non-package at open) is a violation; non-trivial = programs whose both runs terminate within fuel", self.progs.len()),
+            | Mode::Lowering => format!("every accepted program of the universe and of the System-F / F-omega universe ({} programs; Ret-rooted through RootLowerer, executable-rooted through BuiltinRootLowerer): stack-IR lowering, closure conversion, assembly lowering, render_sps_low, render_assembly, emit_amd64 (ELF + Mach-O), emit_llvm (4 triples) each under catch_unwind; independent re-validation in the harness: SPSLow root closed, every block's free variables within its own label, labels unique, stack lets only around coproduct matches, comatch tags unique, product layouts positive with items <= arity and one class per field, every extern in the builtin table with the role's arity; emitted AMD64 text defines no label twice; non-trivial = programs that lowered and contain >= 1 closure package and >= 1 continuation package", self.progs.len()),
+            | Mode::Preservation => format!("every accepted program of the universe and of the System-F / F-omega universe that lowers ({} candidate programs) is run on the harness's SPSLow reference machine (layout-aware flat products, blocks closed over their own label, host operations = the repository's implementations) and on zydeco_dynamics::Runtime with the same stdin; output bytes and final result must agree; a stuck SPSLow state (unbound variable in a block, tag not found, layout/arity mismatch, non-package at open) is a violation; non-trivial = programs whose both runs terminate within fuel", self.progs.len()),
         }
     }
     fn timeout(&self) -> std::time::Duration {
@@ -273,7 +300,7 @@ impl Check for Lowered {
         let mut r = CaseResult::ok("chunk").key(hash64(&format!("l{}", i)));
         let mut nontrivial = 0u64;
         for prog in &self.progs[a..b] {
-            let (text, _) = crate::print::program(&prog.body, &prog.root, &Cfg::default());
+            let text = prog.text();
             let path = scratch.write("main.zydeco", &text);
             let subject = match guarded(|| Subject::analyze(&path)) {
                 | Ok(s) => s,
@@ -294,8 +321,8 @@ impl Check for Lowered {
                     }
                 };
                 r = r.count("lowered", 1);
-                let run = subject.run(prog.stdin, &[], SUBJECT_FUEL);
-                let m = e2::Machine::new(&sps_low, 400_000).run(prog.stdin, &[]);
+                let run = subject.run(prog.stdin(), &[], SUBJECT_FUEL);
+                let m = e2::Machine::new(&sps_low, 400_000).run(prog.stdin(), &[]);
                 r = r.count("machine_steps", m.steps);
                 let agree = match (&run.end, &m.end) {
                     | (_, e2::MEnd::Unsupported(_)) => {
@@ -323,9 +350,9 @@ impl Check for Lowered {
                 if !agree {
                     let fp = match &m.end {
                         | e2::MEnd::Stuck(s) => format!("SPSLow program gets stuck: {}", s.split(':').next().unwrap_or(s).chars().take(70).collect::<String>()),
-                        | _ => format!("SPSLow behaviour differs from the interpreter (origin {})", prog.origin),
+                        | _ => format!("SPSLow behaviour differs from the interpreter (origin {})", prog.origin()),
                     };
-                    r = r.violation(fp, format!("interpreter: {:?} output {:?}\nSPSLow machine: {:?} output {:?}\nstdin {:?}\n{}", run.end, String::from_utf8_lossy(&run.output), m.end, String::from_utf8_lossy(&m.output), String::from_utf8_lossy(prog.stdin), text));
+                    r = r.violation(fp, format!("interpreter: {:?} output {:?}\nSPSLow machine: {:?} output {:?}\nstdin {:?}\n{}", run.end, String::from_utf8_lossy(&run.output), m.end, String::from_utf8_lossy(&m.output), String::from_utf8_lossy(prog.stdin()), text));
                 }
                 continue;
             }
